@@ -27,7 +27,7 @@ CLAIMED = {
     'C15': dict(engine='clocksim', design='4.5',
                 technique='deterministic simulation: TODAY() dashboard driven through seeded clock jumps (forward/backward), zone and DST changes under an LD_PRELOAD clock shim; responses checked against independent calendar arithmetic on the simulated instant',
                 text='Decides the clock-reachable part of C15: TODAY is the simulated local date at midnight in every zone/DST state, is not folded at translation or cached at construction, and YEAR/MONTH/DAY/DATE/EDATE/EOMONTH/DATEDIF(D,M,Y,YM)/NETWORKDAYS/IF computed from it follow the statement\'s definitions as simulated time passes (1971-2099), for both the generated class and a subclass of the importable base class.',
-                note='The rest of the quantifier of C15 (all (y,m,d) triples in a wide box, all offsets -60..60, all holiday subsets) is an input sweep and is NOT claimed: a defect for dates not reachable from the dashboard goes unseen. Local time is evaluated by an independent POSIX-TZ evaluator cross-checked against libc for the same explicit instant. One deliberate relaxation: for DATEDIF M/Y/YM, when the start day does not exist in the end month and the end is that month\'s last day (31 Jan -> 28 Feb), both the day-of-month count and the clamping count are accepted, because the statement does not choose between them (DESIGN.md 4.5, 9.4).'),
+                note='The rest of the quantifier of C15 (all (y,m,d) triples in a wide box, all offsets -60..60, all holiday subsets) is an input sweep and is NOT claimed: a defect for dates not reachable from the dashboard goes unseen. Local time is evaluated by an independent POSIX-TZ evaluator cross-checked against libc for the same explicit instant. One deliberate relaxation: for DATEDIF M/Y/YM, when the start day does not exist in the end month and the end is that month\'s last day (31 Jan -> 28 Feb), both the day-of-month count and the clamping count are accepted, because the statement does not choose between them (DESIGN.md 4.5, 9.4). The oracle computes month lengths itself and reads no mutable standard-library table the library could have written (DESIGN.md 8 item 15).'),
     'C09': dict(engine='parsersim', design='4.3',
                 technique='deterministic simulation: facade histories of 1-3 client threads under a seeded baton scheduler (sys.settrace line/opcode pre-emption), simulated disk with injected I/O faults, every response compared with a fresh Parser in a pristine foreign process',
                 text='1-3 client threads, each with its own real Parser, share the process-global token tables (uninitialised at the start of every run: fork-per-run from a lane that never parsed) and one simulated disk; each client issues 3-12 facade calls (set path, set / replace / re-pass / clear the entry cell, enable / disable safety, get, write, replace a workbook on disk); the schedule is sequential, operation-level or line-level pre-emption (quanta from 1 event to PCT-style rare switches) drawn from the run\'s PRNG; workbooks come from a seeded corpus that covers every translator; 0-2 I/O faults (open failure, ENOSPC/EIO mid-write, error at close, EIO mid-read) and raw read/write caps are injected. Every get must equal, and every write that returns must leave exactly, the text a brand-new Parser produces for the settings in force — computed in another process with another hash seed, cwd and simulated date. Exploration: schedules, histories and fault placements are sampled, not enumerated.',
